@@ -1235,3 +1235,65 @@ Proof.
     destruct (rewind bd (o_st o1)); cbn; auto.
   - cbn [k_ok k_time]. destruct (rewind bd (o_st o1)); cbn; auto.
 Qed.
+
+(* ------------------------------------------------------------------ *)
+(* Refinement: Transport.RoundTrip (with its request state, script threading and trace) computes
+   exactly the stateless specification spec_send, for replayable bodies and no cancellation *)
+
+Definition replayable (bd : body) : Prop := bk bd = KReplay \/ bk bd = KNone.
+
+Lemma serve_none_eq bd st bh t :
+  serve None bd st bh t =
+  (fst (take_body (b_read bh) (s_rest st)), mkSt (snd (take_body (b_read bh) (s_rest st))) (s_calls st),
+   b_out bh, t + b_lat bh).
+Proof. unfold serve. destruct (take_body (b_read bh) (s_rest st)) as [g r]. reflexivity. Qed.
+
+Lemma rt_rewind_replayable bd st :
+  wf_body bd -> replayable bd -> s_rest st = [] \/ bk bd = KReplay ->
+  exists st2, rt_rewind bd st = RwOk st2 /\ s_rest st2 = bdata bd.
+Proof.
+  intros Hwf [H|H] Hs; unfold rt_rewind, rewind; rewrite H.
+  - eexists; split; reflexivity.
+  - exists st. split; [reflexivity|]. destruct Hs as [Hs|Hs]; [|congruence].
+    rewrite Hs. symmetry. apply Hwf. left. exact H.
+Qed.
+
+Lemma rt_loop_spec p bd sc : wf_body bd -> replayable bd ->
+  forall fuel i st t tr, s_rest st = bdata bd ->
+    let out := rt_loop fuel p None bd st (skipn i sc) t (Z.of_nat i) tr in
+    o_res out = fst (fst (spec_run p bd sc t i fuel)) /\
+    o_time out = snd (fst (spec_run p bd sc t i fuel)) /\
+    attempts (o_trace out) = attempts tr ++ snd (spec_run p bd sc t i fuel).
+Proof.
+  intros Hwf Hrep. induction fuel as [|fuel IH]; intros i st t tr Hst.
+  - cbn. rewrite app_nil_r. auto.
+  - cbn [rt_loop spec_run]. unfold rt_step. rewrite next_beh_skipn, serve_none_eq, Hst.
+    set (bh := nth i sc default_beh).
+    set (got := fst (take_body (b_read bh) (bdata bd))).
+    destruct (generic_retry p (Z.of_nat i) (b_out bh)) as [| |d|] eqn:Hg;
+      try (cbn [o_res o_time o_trace fst snd]; rewrite attempts_app; cbn [attempts]; auto).
+    destruct (d <? 0) eqn:Hd;
+      [cbn [o_res o_time o_trace fst snd]; rewrite attempts_app; cbn [attempts]; auto|].
+    destruct (rt_rewind_replayable bd
+                (mkSt (snd (take_body (b_read bh) (bdata bd))) (s_calls st)) Hwf Hrep) as (st2 & Hrw & Hfresh).
+    { destruct Hrep as [Hr|Hr]; [right; exact Hr|left]. cbn [s_rest].
+      rewrite (Hwf (or_introl Hr)), take_body_nil. reflexivity. }
+    rewrite Hrw, pause_cancelled_none.
+    replace (Z.of_nat i + 1) with (Z.of_nat (S i)) by lia.
+    specialize (IH (S i) st2 (t + b_lat bh + d) ((tr ++ [EAttempt t got]) ++ [EPause (t + b_lat bh) d]) Hfresh).
+    cbv zeta in IH. destruct IH as (R & T & A).
+    destruct (spec_run p bd sc (t + b_lat bh + d) (S i) fuel) as [[r te] l].
+    cbn [fst snd] in *. rewrite R, T, A. rewrite !attempts_app. cbn [attempts]. rewrite app_nil_r, <- app_assoc.
+    auto.
+Qed.
+
+Lemma round_trip_refines_spec p bd sc t :
+  wf_body bd -> replayable bd ->
+  let out := round_trip p None bd (init_state bd) sc t in
+  (o_res out, o_time out, attempts (o_trace out)) = spec_send p bd sc t.
+Proof.
+  intros Hwf Hrep. unfold round_trip, spec_send.
+  destruct (rt_loop_spec p bd sc Hwf Hrep (rt_fuel p) 0%nat (init_state bd) t [] eq_refl) as (R & T & A).
+  cbn [skipn Z.of_nat app] in *. rewrite R, T, A.
+  destruct (spec_run p bd sc t 0 (rt_fuel p)) as [[r te] l]. reflexivity.
+Qed.
